@@ -120,7 +120,10 @@ theorem C04_clash_rejected_add (s : Storage) (h : Inv s.index) (c : Client)
     exact hne (hnc.macs x hkc d.uid ((h.macs x d.uid).mpr ⟨d, hd, rfl, hkd⟩))
 
 /-- An `Update` that would make the updated client share its new name or a new
-identifier with ANOTHER client is rejected. -/
+identifier with ANOTHER client is rejected — for clients with any number of
+identifiers of every kind and whatever the position of the shared one among
+them (`k ∈ c.idents` is plain list membership), also when identifiers the
+client already owns come before it. -/
 theorem C04_clash_rejected_update (s : Storage) (h : Inv s.index) (n : Bytes) (c stored : Client)
     (hst : s.index.findByName n = .found stored)
     (hclash : ∃ d ∈ s.index.clients, d.uid ≠ stored.uid ∧ ∃ k, k ∈ c.idents ∧ k ∈ d.idents) :
